@@ -20,6 +20,7 @@ package consensus
 import (
 	"bytes"
 	"context"
+	"encoding/binary"
 	"encoding/hex"
 	"fmt"
 	"io"
@@ -71,16 +72,16 @@ func newFBlock(h fBlockHeader, vl module.ValidatorList) *fBlock {
 	return &fBlock{hdr: h, raw: raw, id: crypto.SHA3Sum256(raw), vl: vl}
 }
 
-func (b *fBlock) Version() int                     { return module.BlockVersion2 }
-func (b *fBlock) ID() []byte                       { return b.id }
-func (b *fBlock) Hash() []byte                     { return b.id }
-func (b *fBlock) Height() int64                    { return b.hdr.Height }
-func (b *fBlock) PrevID() []byte                   { return b.hdr.PrevID }
-func (b *fBlock) Timestamp() int64                 { return b.hdr.Timestamp }
-func (b *fBlock) Result() []byte                   { return nil }
-func (b *fBlock) Votes() module.CommitVoteSet      { return NewEmptyCommitVoteList() }
-func (b *fBlock) NextValidators() module.ValidatorList { return b.vl }
-func (b *fBlock) NextValidatorsHash() []byte       { return b.vl.Hash() }
+func (b *fBlock) Version() int                               { return module.BlockVersion2 }
+func (b *fBlock) ID() []byte                                 { return b.id }
+func (b *fBlock) Hash() []byte                               { return b.id }
+func (b *fBlock) Height() int64                              { return b.hdr.Height }
+func (b *fBlock) PrevID() []byte                             { return b.hdr.PrevID }
+func (b *fBlock) Timestamp() int64                           { return b.hdr.Timestamp }
+func (b *fBlock) Result() []byte                             { return nil }
+func (b *fBlock) Votes() module.CommitVoteSet                { return NewEmptyCommitVoteList() }
+func (b *fBlock) NextValidators() module.ValidatorList       { return b.vl }
+func (b *fBlock) NextValidatorsHash() []byte                 { return b.vl.Hash() }
 func (b *fBlock) NormalTransactions() module.TransactionList { return fTxList{} }
 func (b *fBlock) PatchTransactions() module.TransactionList  { return fTxList{} }
 func (b *fBlock) Proposer() module.Address {
@@ -105,9 +106,9 @@ func (b *fBlock) NextProofContextMap() (module.BTPProofContextMap, error) {
 	return btp.ZeroProofContextMap, nil
 }
 func (b *fBlock) NetworkSectionFilter() module.BitSetFilter { return module.BitSetFilter{} }
-func (b *fBlock) Copy() module.Block              { return b }
-func (b *fBlock) Dup() module.BlockCandidate      { return b }
-func (b *fBlock) Dispose()                        {}
+func (b *fBlock) Copy() module.Block                        { return b }
+func (b *fBlock) Dup() module.BlockCandidate                { return b }
+func (b *fBlock) Dispose()                                  {}
 
 func (b *fBlock) partSet() PartSet {
 	psb := NewPartSetBuffer(ConfigBlockPartSize)
@@ -153,8 +154,8 @@ func (bm *fBM) GetBlockByHeight(h int64) (module.Block, error) {
 	return nil, fmt.Errorf("no block %d", h)
 }
 func (bm *fBM) GetGenesisData() (module.Block, module.CommitVoteSet, error) { return nil, nil, nil }
-func (bm *fBM) WaitForTransaction(parentID []byte, cb func()) (bool, error)  { return false, nil }
-func (bm *fBM) Term()                                                        {}
+func (bm *fBM) WaitForTransaction(parentID []byte, cb func()) (bool, error) { return false, nil }
+func (bm *fBM) Term()                                                       {}
 func (bm *fBM) NewBlockDataFromReader(r io.Reader) (module.BlockData, error) {
 	raw, err := io.ReadAll(r)
 	if err != nil {
@@ -182,6 +183,7 @@ func (bm *fBM) live() []*fPending {
 	bm.pending = keep
 	return keep
 }
+
 // zombies are requests the engine cancelled but whose callback may already have been
 // dispatched by the (real) block manager when Cancel() was called: the engine has to
 // tolerate such a late callback. Only the two most recent ones are kept.
@@ -284,10 +286,10 @@ func (nm *fNM) RegisterReactor(name string, pi module.ProtocolInfo, reactor modu
 func (nm *fNM) RegisterReactorForStreams(name string, pi module.ProtocolInfo, reactor module.Reactor, piList []module.ProtocolInfo, priority uint8, policy module.NotRegisteredProtocolPolicy) (module.ProtocolHandler, error) {
 	return &fPH{nm.node, name}, nil
 }
-func (nm *fNM) UnregisterReactor(reactor module.Reactor) error            { return nil }
+func (nm *fNM) UnregisterReactor(reactor module.Reactor) error                  { return nil }
 func (nm *fNM) SetRole(version int64, role module.Role, peers ...module.PeerID) {}
-func (nm *fNM) GetPeers() []module.PeerID                                  { return nil }
-func (nm *fNM) GetPeersByRole(role module.Role) []module.PeerID            { return nil }
+func (nm *fNM) GetPeers() []module.PeerID                                       { return nil }
+func (nm *fNM) GetPeersByRole(role module.Role) []module.PeerID                 { return nil }
 
 // ---------------------------------------------------------------- service manager / regulator / chain
 
@@ -297,10 +299,12 @@ type fSM struct {
 }
 
 func (sm *fSM) GetMembers(result []byte) (module.MemberList, error) { return nil, nil }
-func (sm *fSM) GetMinimizeBlockGen(result []byte) bool               { return false }
-func (sm *fSM) GetRoundLimit(result []byte, vl int) int64            { return 0 }
-func (sm *fSM) GetRevision(result []byte) module.Revision            { return module.Revision(sm.node.env.revision) }
-func (sm *fSM) SendPatch(patch module.Patch) error                   { return nil }
+func (sm *fSM) GetMinimizeBlockGen(result []byte) bool              { return false }
+func (sm *fSM) GetRoundLimit(result []byte, vl int) int64           { return 0 }
+func (sm *fSM) GetRevision(result []byte) module.Revision {
+	return module.Revision(sm.node.env.revision)
+}
+func (sm *fSM) SendPatch(patch module.Patch) error { return nil }
 func (sm *fSM) SendDoubleSignReport(result []byte, vh []byte, data []module.DoubleSignData) error {
 	sm.node.dsReports++
 	return nil
@@ -311,12 +315,12 @@ func (sm *fSM) BTPNetworkTypeFromResult(result []byte, ntid int64) (module.BTPNe
 
 type fRegulator struct{}
 
-func (fRegulator) MaxTxCount() int                                          { return 1000 }
-func (fRegulator) OnPropose(now time.Time)                                  {}
-func (fRegulator) CommitTimeout() time.Duration                             { return time.Second }
-func (fRegulator) MinCommitTimeout() time.Duration                          { return 200 * time.Millisecond }
+func (fRegulator) MaxTxCount() int                                             { return 1000 }
+func (fRegulator) OnPropose(now time.Time)                                     {}
+func (fRegulator) CommitTimeout() time.Duration                                { return time.Second }
+func (fRegulator) MinCommitTimeout() time.Duration                             { return 200 * time.Millisecond }
 func (fRegulator) OnTxExecution(count int, ed time.Duration, fd time.Duration) {}
-func (fRegulator) SetBlockInterval(i time.Duration, d time.Duration)        {}
+func (fRegulator) SetBlockInterval(i time.Duration, d time.Duration)           {}
 
 type fChain struct {
 	module.Chain
@@ -325,19 +329,19 @@ type fChain struct {
 	lg   log.Logger
 }
 
-func (c *fChain) MaxBlockTxBytes() int                               { return 1024 * 1024 }
-func (c *fChain) Database() db.Database                              { return c.dbs }
-func (c *fChain) CommitVoteSetDecoder() module.CommitVoteSetDecoder  { return NewCommitVoteSetFromBytes }
-func (c *fChain) ServiceManager() module.ServiceManager              { return c.node.sm }
-func (c *fChain) MetricContext() context.Context                     { return nil }
-func (c *fChain) CID() int                                           { return 1 }
-func (c *fChain) NID() int                                           { return 1 }
-func (c *fChain) Logger() log.Logger                                 { return c.lg }
-func (c *fChain) NetworkManager() module.NetworkManager              { return c.node.nm }
-func (c *fChain) BlockManager() module.BlockManager                  { return c.node.bm }
-func (c *fChain) Regulator() module.Regulator                        { return fRegulator{} }
-func (c *fChain) Wallet() module.Wallet                              { return c.node.w }
-func (c *fChain) WalletFor(dsa string) module.BaseWallet             { return nil }
+func (c *fChain) MaxBlockTxBytes() int                              { return 1024 * 1024 }
+func (c *fChain) Database() db.Database                             { return c.dbs }
+func (c *fChain) CommitVoteSetDecoder() module.CommitVoteSetDecoder { return NewCommitVoteSetFromBytes }
+func (c *fChain) ServiceManager() module.ServiceManager             { return c.node.sm }
+func (c *fChain) MetricContext() context.Context                    { return nil }
+func (c *fChain) CID() int                                          { return 1 }
+func (c *fChain) NID() int                                          { return 1 }
+func (c *fChain) Logger() log.Logger                                { return c.lg }
+func (c *fChain) NetworkManager() module.NetworkManager             { return c.node.nm }
+func (c *fChain) BlockManager() module.BlockManager                 { return c.node.bm }
+func (c *fChain) Regulator() module.Regulator                       { return fRegulator{} }
+func (c *fChain) Wallet() module.Wallet                             { return c.node.w }
+func (c *fChain) WalletFor(dsa string) module.BaseWallet            { return nil }
 
 // ---------------------------------------------------------------- record-level WAL
 
@@ -403,12 +407,12 @@ func (w *memWAL) crash() {
 // ---------------------------------------------------------------- environment and node
 
 type csEnv struct {
-	n        int
-	wallets  []module.Wallet
-	vl       module.ValidatorList
-	genesis  *fBlock
-	revision int
-	t0       time.Time
+	n          int
+	wallets    []module.Wallet
+	vl         module.ValidatorList
+	genesis    *fBlock
+	revision   int
+	t0         time.Time
 	walFactory func(node *csNode) WALManager // nil = memWAL
 }
 
@@ -468,15 +472,16 @@ type csNode struct {
 	finCertWhy     string
 
 	// C02 bookkeeping, kept by the harness across restarts
-	signed     map[string]string // (kind,height,round) of every own signed vote/proposal handed to the network -> hash of the signed content
+	signed      map[string]string // (kind,height,round) of every own signed vote/proposal handed to the network -> hash of the signed content
 	equivocated string            // first conflict found
 	notDurable  string            // first own vote/proposal sent while its WAL record was not durable
 	// crash injection inside a step: effects are WAL writes, WAL syncs and network sends
-	effects int
-	failAt  int // crash (panic with errInjectedCrash) before the failAt-th effect of the current step; 0 = off
-	crashedInStep bool
-	resigned      int // own votes/proposals handed to the network after a restart
-	durableCheck  func(record []byte) bool // is this round-WAL record durable right now?
+	effects        int
+	failAt         int // crash (panic with errInjectedCrash) before the failAt-th effect of the current step; 0 = off
+	crashedInStep  bool
+	voteKeys       map[*VoteMessage]string
+	resigned       int                      // own votes/proposals handed to the network after a restart
+	durableCheck   func(record []byte) bool // is this round-WAL record durable right now?
 	restarts       int
 	totalProposals int
 }
@@ -666,6 +671,7 @@ func (n *csNode) crashRestart() {
 	}
 	n.world.NowT = n.world.NowT.Add(3 * time.Second)
 	n.panicked = ""
+	n.voteKeys = nil
 	n.boot()
 }
 
@@ -695,11 +701,26 @@ func bpsProj(b *blockPartSet) string {
 	return fmt.Sprintf("%s/%d:%s:%v:%v", shortHex(id.Hash), id.Count, b.GetMask().String(), b.block != nil, b.validatedBlock != nil)
 }
 
-func voteKey(m *VoteMessage) string {
+// voteKey identifies a stored vote by its FULL wire form (signature and every field, also the
+// ones the signature does not cover): two votes with the same signed content but different
+// encodings (e.g. rebuilt from a commit vote list) are written differently to the WAL later.
+func (n *csNode) voteKey(m *VoteMessage) string {
 	if m == nil {
 		return "."
 	}
-	return shortHex(m.hash())
+	if k, ok := n.voteKeys[m]; ok {
+		return k
+	}
+	bs, err := msgCodec.MarshalToBytes(m)
+	if err != nil {
+		bs = m.hash()
+	}
+	k := shortHex(crypto.SHA3Sum256(bs))
+	if n.voteKeys == nil {
+		n.voteKeys = map[*VoteMessage]string{}
+	}
+	n.voteKeys[m] = k
+	return k
 }
 
 // projection is the canonical local state of the engine: everything its future
@@ -735,7 +756,7 @@ func (n *csNode) projection(knownPS [][]byte) string {
 			sb.WriteByte('{')
 			if rv[t] != nil {
 				for _, m := range rv[t].msgs {
-					sb.WriteString(voteKey(m))
+					sb.WriteString(n.voteKey(m))
 					sb.WriteByte(',')
 				}
 			}
@@ -768,12 +789,12 @@ func (n *csNode) projection(knownPS [][]byte) string {
 		for _, id := range []string{"round", "lock", "commit"} {
 			fmt.Fprintf(&sb, "%s:", id[:1])
 			for _, r := range n.mwal.synced[id] {
-				sb.WriteString(shortHex(crypto.SHA3Sum256(r)))
+				sb.WriteString(shortHex(crypto.SHA3Sum256(canonWALRecord(r))))
 				sb.WriteByte(',')
 			}
 			sb.WriteByte('/')
 			for _, r := range n.mwal.unsynced[id] {
-				sb.WriteString(shortHex(crypto.SHA3Sum256(r)))
+				sb.WriteString(shortHex(crypto.SHA3Sum256(canonWALRecord(r))))
 				sb.WriteByte(',')
 			}
 		}
@@ -786,6 +807,42 @@ func (n *csNode) projection(knownPS [][]byte) string {
 }
 
 func sha3(b []byte) []byte { return crypto.SHA3Sum256(b) }
+
+// canonWALRecord is the form of a WAL record the projection hashes.  A vote
+// list record encodes each prototype's NTSVoteBases as written in memory, and
+// the engine holds both nil and zero-length slices for "no NTS votes"
+// (votebase.go normalises the two for RoundDecisionDigest, and a VoteMessage
+// encodes both as "absent"); the record read back is the same list of votes
+// either way, so the two encodings are one state.  Anything that is not a
+// well-formed vote list record is hashed as written.
+func canonWALRecord(r []byte) []byte {
+	if len(r) < 2 || binary.BigEndian.Uint16(r[:2]) != uint16(ProtoVoteList) {
+		return r
+	}
+	m, err := UnmarshalMessage(uint16(ProtoVoteList), r[2:])
+	if err != nil {
+		return r
+	}
+	vlm, ok := m.(*VoteListMessage)
+	if !ok || vlm.VoteList == nil {
+		return r
+	}
+	for i := range vlm.VoteList.Prototypes {
+		if len(vlm.VoteList.Prototypes[i].NTSVoteBases) == 0 {
+			vlm.VoteList.Prototypes[i].NTSVoteBases = nil
+		}
+	}
+	for i := range vlm.VoteList.VoteItems {
+		if len(vlm.VoteList.VoteItems[i].NTSDProofParts) == 0 {
+			vlm.VoteList.VoteItems[i].NTSDProofParts = nil
+		}
+	}
+	b, err := msgCodec.MarshalToBytes(vlm)
+	if err != nil {
+		return r
+	}
+	return append(append([]byte(nil), r[:2]...), b...)
+}
 
 // recountCert is the harness' own count of the commit certificate the engine
 // holds when it calls Finalize: precommits of its commit round, re-decoded from
